@@ -14,6 +14,9 @@ been asked), on the references resolved so far and on the reference asked about.
 such an oracle; `Proofs/ResolveSched.lean` shows `loop P = loopO (fun _ => P.ready)`.
 `countOracle` = the schedule used by the C08 correspondence: reference `r` is
 answered `Postponed` on its first `wait r` calls.
+`depOracle` = `countOracle` plus providers that *ask the resolver* about another
+reference (`needs_to_be_resolved`: RREL expressions walking over `~attr`,
+`RelativeName`, …) — expressed as a function of the call history alone.
 Model file: core Lean only.
 -/
 namespace Resolve
@@ -39,5 +42,15 @@ def loopO (O : Oracle) : Nat → List Ref → List Ref → List Ref → List Ref
 
 /-- `Postponed` on the first `wait r` calls for reference `r` -/
 def countOracle (wait : Ref → Nat) : Oracle := fun hist _ r => decide (wait r ≤ hist.count r)
+
+/-- Counting schedule plus dependencies decided the way `needs_to_be_resolved` decides them.
+`dep r` = the references whose attribute the provider of `r` has to walk over (same model file).
+`has_unresolved_crossrefs` scans `parser._crossrefs`, which is replaced only at the END of a
+pass: a dependency resolved earlier in the *same* pass is still reported unresolved (cf.
+`ResolveQuery.stepQ`).  Every pending reference is asked exactly once per round, so at a call
+for `r` the current round is `hist.count r` and a resolved `d` got resolved in round
+`hist.count d - 1`: "`d` was resolved in an earlier round" = `d ∈ res ∧ hist.count d ≤ hist.count r`. -/
+def depOracle (wait : Ref → Nat) (dep : Ref → List Ref) : Oracle := fun hist res r =>
+  decide (wait r ≤ hist.count r) && (dep r).all (fun d => decide (d ∈ res) && decide (hist.count d ≤ hist.count r))
 
 end Resolve
